@@ -48,7 +48,7 @@ COMPONENTS = {
 }
 ASSUMPTIONS = [
     "the reference is merge3.Merge3(base, this, other, is_cherrypick=..., sequence_matcher=PatienceSequenceMatcher) rendered with name_a=TREE, name_b=MERGE-SOURCE, name_base=BASE-REVISION, base_marker='|||||||' iff show_base, reprocess as given: breezy is checked against its dependency, the dependency itself is not judged (e.g. a marker glued to a line without final newline is the reference's rendering too)",
-    "user lines never start with breezy's private sentinel '!START OF MERGE CONFLICT!I HOPE THIS IS UNIQUE' (a documented weakness of the marker detection; VERIF_C19_SENTINEL=1 adds such lines to the alphabet)",
+    "guard sentinel_line (reported defect): user lines do not start with breezy's private sentinel '!START OF MERGE CONFLICT!I HOPE THIS IS UNIQUE' (text_merge takes such a line for a conflict start and rewrites it); the guard is lifted in 15% of the runs once known_findings.json has an open entry [C19, known-defect, sentinel_line] (and always with VERIF_C19_SENTINEL=1): such lines then join the alphabet and any failure of a run whose texts contain one carries that signature",
     "texts never contain NUL (binary files take the contents-conflict path, not the text merge)",
     "reprocess together with show_base is refused by the code (CantReprocessAndShowBase from inside the merge): the oracle then only requires that the tree is left exactly as it was (texts, no helpers, no conflict records); when no file needs a text merge the combination is accepted and judged like any other run",
     "only Merge3Merger: WeaveMerger / LCAMerger do not take base/this/other texts (their reference would be the weave plan) and are exercised by C17",
@@ -59,6 +59,9 @@ STEP_CAP = 400000
 ISOLATION = "thread"
 
 SENTINEL = os.environ.get("VERIF_C19_SENTINEL") == "1"
+GUARDS = ("sentinel_line",)
+P_UNGUARDED = float(os.environ.get("VERIF_UNGUARDED", "0") or 0)
+P_LIFT = 0.15
 ORD = ["a", "b", "c", "d", "e"]
 MARK = ["<<<<<<< TREE", "=======", ">>>>>>> MERGE-SOURCE", "||||||| BASE-REVISION", "<<<<<<<", ">>>>>>>", "<<<<<<< MERGE-SOURCE"]
 SENT = ["!START OF MERGE CONFLICT!I HOPE THIS IS UNIQUE TREE", "!START OF MERGE CONFLICT!I HOPE THIS IS UNIQUE"]
@@ -86,9 +89,12 @@ def config(tier):
 # -- generation ----------------------------------------------------------------------------------
 
 
+_gen = {"sentinel": False}  # set by generate() for the plan being generated
+
+
 def _line(rng, pmark):
     x = rng.random()
-    if SENTINEL and x < 0.08:
+    if _gen["sentinel"] and x < 0.08:
         return rng.choice(SENT)
     if x < pmark:
         return rng.choice(MARK)
@@ -150,6 +156,17 @@ def gen_triple(rng, name, mode):
 
 
 def generate(rng, tier):
+    # guard sentinel_line (reported defect): lifted in a share of the runs once known_findings.json
+    # has the open entry [C19, known-defect, sentinel_line]; always with VERIF_C19_SENTINEL=1
+    x = rng.random()
+    _gen["sentinel"] = bool(SENTINEL or x < P_UNGUARDED or (x < P_LIFT and M.lifted_guards(PROPERTY, GUARDS)))
+    try:
+        return _generate(rng)
+    finally:
+        _gen["sentinel"] = False
+
+
+def _generate(rng):
     mode = rng.choice(MODES)
     nfiles = rng.choice([1, 1, 2, 3])
     names = rng.sample(NAMES, nfiles)
@@ -234,7 +251,12 @@ def execute(sim, plan):
     enc = {f["name"]: {k: f.get(k, "").encode("utf-8") for k in ("base", "this", "other", "orig")} for f in files}
     fid = {f["name"]: ("id-%d" % i).encode() for i, f in enumerate(files)}
 
+    sentinel = any(b"!START OF MERGE CONFLICT!I HOPE THIS IS UNIQUE" in v for e_ in enc.values() for v in e_.values())
+
     def fail(tag, rest, detail):
+        if sentinel:
+            # the reported weakness of the marker detection (see ASSUMPTIONS)
+            sim.fail(tag, ["C19", "known-defect", "sentinel_line"], "[%s, user text contains breezy's private start marker] %s\nplan: %s" % (tag, detail, json.dumps(plan, sort_keys=True)))
         sim.fail(tag, ["C19", tag] + list(rest), detail + "\nplan: " + json.dumps(plan, sort_keys=True))
 
     # -- history: r0 on both sides, OTHER (and the merge base of cherrypicks) on the sibling
